@@ -444,8 +444,10 @@ class EvolvableModule(nn.Module, metaclass=ModuleMeta):
                 if old_size == new_size:
                     # If the sizes are the same, just copy the parameter
                     param.data = old_param.data
-                elif "norm" not in key:
+                else:
                     # Create a slicing index to handle tensors with varying sizes
+                    # NOTE: This includes the affine parameters of normalization layers, which are
+                    # learned weights like any other
                     slice_index = tuple(
                         slice(0, min(o, n)) for o, n in zip(old_size, new_size)
                     )
